@@ -24,9 +24,9 @@ func reuseCases(prop, tier string) int {
 		return 0
 	}
 	if tier == "thorough" {
-		return 600
+		return 1500
 	}
-	return 60
+	return 120
 }
 
 func runReuseCase(prop, tier string, seed int64, k, idx int) proto.Rec {
@@ -147,16 +147,20 @@ func runReuseCase(prop, tier string, seed int64, k, idx int) proto.Rec {
 		}
 	}
 	reused := 0
+	reusedOnce := false
 	for i := 0; i < tail; i++ {
 		var m *sarama.ProducerMessage
 		// objects handed back earlier are sent again once a batch has been refused: that is when the
 		// partition is retrying and fresh input is parked behind the retried messages
-		if i%reuseEvery == 0 && atomic.LoadInt32(&refused) == 1 {
+		if atomic.LoadInt32(&refused) == 1 && (!reusedOnce || i%reuseEvery == 0) {
+			// the first submission after the refusal is a re-used object, the most recently returned one
+			// (its old sequence number is still among the batches the cluster remembers)
 			mu.Lock()
-			if len(returned) > 0 {
-				m = returned[0]
-				returned = returned[1:]
+			if n := len(returned); n > 0 {
+				m = returned[n-1]
+				returned = returned[:n-1]
 				reused++
+				reusedOnce = true
 			}
 			mu.Unlock()
 		}
